@@ -19,8 +19,8 @@ func init() {
 	Register("C18", &Oracle{
 		Rule: "(a) every sequence of exactly L repository calls over {StoreFile, FindFile, FindAllFiles, DeleteFile, StoreBatch, FindBatch, FindAllBatches, DeleteBatch} " +
 			"on nf file IDs x nb batch IDs (quick: 2x2 L=5, 3x3 L=4, 1x1 L=6; search: 2x2 L=6, 3x3 L=4; thorough: 2x2 L=6, 3x3 L=5, 1x3 L=6, 3x1 L=5; shorter sequences are their prefixes), each Store handing over a fresh object, " +
-			"run on a fresh server.NewRepositoryInMemory(0,nil) and compared call by call (error/no error, identity of the returned objects, listed sets) with a sequential map model; " +
-			"the error value of deleting an absent file/batch is not compared (property silent). One recorded case per pair of first two calls. " +
+			"run on a fresh server.NewRepositoryInMemory(0,nil), directly and (all calls but StoreFile) through server.NewService over it, and compared call by call (error/no error, identity of the returned objects, listed sets) with a sequential map model; " +
+			"every listing a call returned is kept and must still hold the same objects after every later call; the error value of deleting an absent file/batch is not compared (property silent). One recorded case per pair of first two calls. " +
 			"(b) seeded concurrent programs: a random pre-populated state, 2..8 goroutines x 1..6 calls on 1..3 file IDs x 1..3 batch IDs lined up on a spinning barrier (at the start, or before every round of calls), each program run 4 times, call/return stamped by an atomic logical clock, " +
 			"history checked for linearizability against the same model with porcupine; distinct = distinct program text; non-trivial = at least two clients and one mutating call. " +
 			"Only pointer identity of returned objects is inspected, so the oracle is race-free under -race.",
@@ -126,8 +126,20 @@ func exhaustive(t *T, nf, nb, l int) {
 
 // runSequence runs one sequence on a fresh repository against the model.
 func runSequence(seq []op) *seqFailure {
+	if f := runSequenceVia(seq, false); f != nil {
+		return f
+	}
+	return runSequenceVia(seq, true)
+}
+
+func runSequenceVia(seq []op, service bool) *seqFailure {
 	repo := server.NewRepositoryInMemory(0, nil)
-	ob := &objects{files: make([]*fileT, len(seq)), batches: make([]batchT, len(seq))}
+	ob := &objects{files: make([]*fileT, len(seq)), batches: make([]batchT, len(seq)), keepLists: true}
+	via := ""
+	if service {
+		ob.svc = server.NewService(repo)
+		via = "service/"
+	}
 	var s mstate
 	for i, o := range seq {
 		switch o.kind {
@@ -144,7 +156,7 @@ func runSequence(seq []op) *seqFailure {
 				calls = append(calls, p.String())
 			}
 			return &seqFailure{
-				sig:      "C18/sequential/" + kindName[o.kind] + "/" + why,
+				sig:      "C18/sequential/" + via + kindName[o.kind] + "/" + why,
 				what:     "the repository disagrees with sequential map semantics at the last call of the sequence",
 				input:    map[string]any{"calls": calls, "model_state_before_last_call": s.String()},
 				observed: r.String(),
@@ -152,6 +164,19 @@ func runSequence(seq []op) *seqFailure {
 			}
 		}
 		s = ns
+		if ch := ob.listingChanged(); ch != "" {
+			var calls []string
+			for _, p := range seq[:i+1] {
+				calls = append(calls, p.String())
+			}
+			return &seqFailure{
+				sig:      "C18/sequential/" + via + "listing-changed-after-return/by=" + kindName[o.kind],
+				what:     "a listing that had been returned changed when a later call changed the store: it was not a snapshot taken at one instant",
+				input:    map[string]any{"calls": calls},
+				observed: ch,
+				required: "a returned listing keeps the set it had when the call returned",
+			}
+		}
 	}
 	return nil
 }
